@@ -441,6 +441,8 @@ def main(argv):
                               "body_sha": it["body_sha"], "obligations": k, "havoc": len(it["havoc"])})
             if len(samples) < 12 and it["clauses"]["ensures"] and pid in it["props"]:
                 samples.append({"function": it["id"], "ensures": it["clauses"]["ensures"][:3], "requires": it["clauses"]["requires"][:3]})
+            for h in it.get("rewrites", []):
+                assumptions.add("%s: std call rewritten to a specified equivalent in %s: `%s` -> `%s`" % (rec["unit"], it["id"], h["old"][:80].replace("\n", " "), h["new"][:80].replace("\n", " ")))
             for h in it["havoc"]:
                 assumptions.add("%s: havoc/rewrite in %s: `%s` -> `%s` (%s)" % (rec["unit"], it["id"], h["old"][:80].replace("\n", " "), h["new"][:80].replace("\n", " "), h["note"]))
         for fn_, (us, ok) in rec["times"].items():
